@@ -10,8 +10,9 @@ histories; after every operation the projected observables are
 import itertools
 import json
 import os
+import re
 
-from lib import gN, gbool, glist
+from lib import REPO, gN, gbool, glist
 
 HEADER = ("From CJ Require Import Common.Base C08.Model C08.Run.\n"
           "Definition K (s : N) (t : tr) (p : N) : regkey := Build_regkey s t p.\n"
@@ -302,12 +303,19 @@ def gen_cases(ctx):
         if isinstance(c, dict) and "case" in c:
             cases.append(c["case"])
     cases += rp.get("cases", [])
+    if ctx.replay is not None:
+        # replay mode: exactly the recorded histories, on the implementation and on the model
+        return cases, len(cases), len(cases)
     cdir = os.path.join(os.path.dirname(os.path.dirname(os.path.dirname(os.path.abspath(__file__)))), "corpus", "C08")
     if os.path.isdir(cdir):
         for fn in sorted(os.listdir(cdir)):
             if fn.endswith(".json"):
                 with open(os.path.join(cdir, fn)) as f:
-                    cases += json.load(f)
+                    d = json.load(f)
+                if isinstance(d, dict):      # replay-file format
+                    cases += [x["case"]["case"] for x in d.get("failures", [])]
+                else:
+                    cases += d
     cases += corpus_cases()
     n_fixed = len(cases)
     cases += exhaustive_cases(3, small=False)
@@ -316,12 +324,14 @@ def gen_cases(ctx):
     else:
         cases += exhaustive_cases(4, small=False)
         cases += exhaustive_cases(5, small=True)
+        cases += exhaustive_cases(6, small=True)
+    n_exh = len(cases)
     rng = ctx.rng
     for _ in range(150 if quick else 1500):
         cases.append(random_case(rng, rng.choice([5, 10, 20, 40]), big=False))
     for _ in range(25 if quick else 300):
         cases.append(random_case(rng, rng.choice([80, 120, 200]), big=True))
-    return cases, n_fixed
+    return cases, n_fixed, n_exh
 
 
 # ----------------------------------------------------------------------------- Gallina emission
@@ -362,6 +372,28 @@ def gcase(case, res):
                                             gN(res["timeout_unused_ns"]), gN(res["timeout_active_ns"]), hist)
 
 
+# ----------------------------------------------------------------------------- wiring
+def wiring(ctx):
+    """the station must actually call the sweep and the activation (cmd/application is package main and its
+    goroutines cannot be driven from a test): a tolerant source check - some non-test file of cmd/application
+    calls RemoveOldRegistrations from a ticker loop and MarkActive on the matched registration"""
+    d = os.path.join(REPO, "cmd", "application")
+    src = ""
+    for fn in sorted(os.listdir(d)):
+        if fn.endswith(".go") and not fn.endswith("_test.go"):
+            with open(os.path.join(d, fn)) as f:
+                src += re.sub(r"//[^\n]*", "", f.read())
+    sweeps = re.search(r"NewTicker\([^)]*\)(?:(?!\n}\n).)*?\.RemoveOldRegistrations\(\)", src, flags=re.S)
+    ctx.cov["histogram"]["wiring/sweeper"] = 1 if sweeps else 0
+    ctx.cov["histogram"]["wiring/markactive"] = 1 if re.search(r"\.MarkActive\(", src) else 0
+    if not sweeps:
+        ctx.broken("wiring", "no ticker loop in cmd/application calls RegistrationManager.RemoveOldRegistrations(): "
+                   "expired registrations would never be swept by the running station")
+    if not re.search(r"\.MarkActive\(", src):
+        ctx.broken("wiring", "cmd/application never calls RegistrationManager.MarkActive: a connection would not mark "
+                   "its registration used")
+
+
 # ----------------------------------------------------------------------------- run
 def run(ctx):
     ctx.assumptions += [
@@ -389,7 +421,8 @@ def run(ctx):
     rc, out = ctx.coq_make(["C08/Examples.vo", "C08/Legacy.vo"])
     if rc != 0:
         ctx.broken("examples", "non-vacuity examples / legacy witness no longer check: " + out[-600:])
-    cases, n_fixed = gen_cases(ctx)
+    wiring(ctx)
+    cases, n_fixed, n_exh = gen_cases(ctx)
     rc, out, res = ctx.go_inpkg(".", GO_PKG, GO_FILES, "^TestVerifC08Registry$", cases, tags=None, timeout=900)
     if res is None or len(res) != len(cases):
         ctx.broken("driver", "Go driver did not produce results (rc=%s): %s" % (rc, out[-1200:]))
@@ -399,7 +432,7 @@ def run(ctx):
         nsweep = sum(1 for o in case["ops"] if o["op"] == "sweep")
         nreg = sum(1 for o in case["ops"] if o["op"] in ("track", "tracknx", "validate"))
         removed = any(a["total"] > b["total"] for a, b in zip(r["obs"], r["obs"][1:]))
-        kind = "corpus" if idx < n_fixed else ("exhaustive" if len(case["ops"]) <= 5 and idx >= n_fixed else "random")
+        kind = "corpus" if idx < n_fixed else ("exhaustive" if idx < n_exh else "random")
         kind += "/expiring" if removed else ("/sweep" if nsweep else "/nosweep")
         ctx.count(case["ops"], nontrivial=bool(nsweep and nreg), kind=kind)
         for o in case["ops"]:
@@ -422,8 +455,9 @@ def run(ctx):
     for i in (0, n_fixed + 5, len(cases) - 1):
         if i < len(cases):
             ctx.sample({"ops": cases[i]["ops"][:12], "last_observation": res[i]["obs"][-1] if res[i]["obs"] else None})
-    ctx.require_kinds(["corpus/expiring", "exhaustive/expiring", "exhaustive/sweep", "random/expiring",
-                       "op/track", "op/tracknx", "op/validate", "op/active", "op/advance", "op/sweep", "op/lookup", "op/count"])
+    if ctx.replay is None:
+        ctx.require_kinds(["corpus/expiring", "exhaustive/expiring", "exhaustive/sweep", "random/expiring",
+                           "op/track", "op/tracknx", "op/validate", "op/active", "op/advance", "op/sweep", "op/lookup", "op/count"])
     mm = ctx.coq_mismatches("hist", HEADER, terms, "chk", shard=max(60, (len(terms) + 15) // 16), need_vo=["C08/Run.vo"])
     if mm:
         ctx.cov["mismatches"] += len(mm)
